@@ -38,6 +38,8 @@ pub struct ShimState {
     pub root: Option<String>,
     fds: HashMap<i32, (String, bool, u64)>, // path, append, position
     dir_fds: Vec<i32>,
+    /// read-only descriptors of tracked files: an fsync through one is a sync of that file all the same
+    ro_fds: HashMap<i32, String>,
     pub sizes: HashMap<String, u64>,
     pub log: Vec<Effect>,
     pub faults: Vec<(Fault, usize)>, // fault, matching calls seen so far
@@ -173,6 +175,8 @@ unsafe fn do_open(path: *const c_char, flags: c_int, mode: mode_t, which: u8) ->
                         }
                         s.log.push(Effect::Open { path: r.clone(), create, trunc });
                         s.fds.insert(fd, (r, (flags & libc::O_APPEND) != 0, 0));
+                    } else {
+                        s.ro_fds.insert(fd, r);
                     }
                 }
             });
@@ -246,7 +250,7 @@ pub unsafe extern "C" fn write(fd: c_int, buf: *const c_void, count: size_t) -> 
 
 unsafe fn do_sync(fd: c_int, data_only: bool) -> c_int {
     let is_dir = with_state(|s| s.dir_fds.contains(&fd));
-    let tracked = with_state(|s| s.fds.get(&fd).cloned());
+    let tracked = with_state(|s| s.fds.get(&fd).cloned().or_else(|| s.ro_fds.get(&fd).map(|p| (p.clone(), false, 0))));
     let name = if data_only { "fdatasync" } else { "fsync" };
     if let Some((path, _, _)) = &tracked {
         if let Some((e, _)) = with_state(|s| check_fault(s, name, path)) {
@@ -370,6 +374,7 @@ pub unsafe extern "C" fn unlink(path: *const c_char) -> c_int {
 pub unsafe extern "C" fn close(fd: c_int) -> c_int {
     with_state(|s| {
         s.fds.remove(&fd);
+        s.ro_fds.remove(&fd);
         s.dir_fds.retain(|d| *d != fd);
     });
     real!("close", unsafe extern "C" fn(c_int) -> c_int)(fd)
